@@ -59,6 +59,10 @@ func (items OrderSchemaItems) Less(i, j int) (ret bool) {
 					ret = reflect.ValueOf(ii).String() < reflect.ValueOf(ij).String()
 				}
 			}()
+			if ii == ij {
+				// same x-order: fall back to the name, so that the order does not depend on map iteration
+				return items[i].Name < items[j].Name
+			}
 			return ii < ij
 		}
 		return true
